@@ -529,7 +529,18 @@ def value_expr(path: Path, index: int, expr, depth: int = 12, keep_clock: bool =
 
         def visit_Call(self, node):
             got = returned_by_helper(original.get(id(node)))
-            return got if got is not None else self.generic_visit(node)
+            if got is not None:
+                return got
+            node = self.generic_visit(node)
+            inner = node.func
+            if isinstance(inner, ast.Call) and inner.args and \
+                    ast.unparse(inner.func) in ('partial', 'functools.partial') and \
+                    not any(isinstance(a, ast.Starred) for a in inner.args):
+                # partial(f, a, k=v)(b)  ==  f(a, b, k=v)
+                return ast.copy_location(ast.Call(
+                    func=inner.args[0], args=list(inner.args[1:]) + list(node.args),
+                    keywords=list(inner.keywords) + list(node.keywords)), node)
+            return node
 
         def visit_Await(self, node):
             got = returned_by_helper(original.get(id(node)))
@@ -779,6 +790,16 @@ def _mutations(fnode, name):
     return stores, calls
 
 
+def comprehension_of(value):
+    """the comprehension a value is made by: the comprehension itself, or the generator
+    expression given to ``list()`` / ``tuple()``; else the value"""
+    if isinstance(value, ast.Call) and isinstance(value.func, ast.Name) and \
+            value.func.id in ('list', 'tuple') and len(value.args) == 1 and \
+            not value.keywords and isinstance(value.args[0], (ast.GeneratorExp, ast.ListComp)):
+        return value.args[0]
+    return value
+
+
 def sequence_maps(fnode) -> dict:
     """name -> SeqMap for every local list that is provably an in-order map"""
     result = {}
@@ -794,7 +815,11 @@ def sequence_maps(fnode) -> dict:
                 target, value = '<return>', stmt.value
             if value is None:
                 continue
-            if isinstance(value, ast.ListComp):
+            inner = comprehension_of(value)
+            if isinstance(inner, ast.ListComp) or (
+                    isinstance(inner, ast.GeneratorExp) and inner is not value):
+                # [f(x) for x in S], list(f(x) for x in S), tuple(...)
+                value = inner
                 gens = value.generators
                 if len(gens) == 1 and len(gens[0].ifs) <= 1 and not gens[0].is_async and \
                         isinstance(gens[0].target, ast.Name):
